@@ -61,7 +61,7 @@ func c17(tier string) int {
 		pools[k] = p
 		defer p.Close()
 	}
-	progs := []diffrun.Program{repro.Program(), generic.Program(), dcex.Program(), repro.OrderProgram(), repro.LineProgram()}
+	progs := []diffrun.Program{repro.Program(), generic.Program(), dcex.Program(), repro.OrderProgram(), repro.LineProgram(), repro.PackagesProgram()}
 	// the corpus of the other families: every program built in fresh processes under different map iteration starts
 	corp := corpus(thorough)
 	inCorpus := map[string]bool{}
@@ -138,7 +138,7 @@ func c17(tier string) int {
 				if !thorough && minify && mp && p.Name != "c17_files" {
 					continue
 				}
-				if !thorough && minify != mp && (p.Name == "c17_order" || p.Name == "c17_line") {
+				if !thorough && minify != mp && (p.Name == "c17_order" || p.Name == "c17_line" || p.Name == "c17_pkgs") {
 					continue
 				}
 				kd := key{p.Name, "dir", minify, mp}
@@ -223,7 +223,7 @@ func c17(tier string) int {
 	cov := map[string]any{
 		"evaluations":         builds,
 		"distinct_nontrivial": groups,
-		"rule":                "programs: the four-file program (closures, generic instances, anonymous types, linknames, a two-file dependency), the generics and reachability programs, an order program (closures in every clause of a type switch in a loop, escaping variables at several depths, a dozen anonymous types, 13+5 generic instances, a flattened function with labels and select, cross-package initialisers, five standard imports), a package whose four files carry the same //line directive (all 24 listing orders), and the corpus of the other families (each program built in fresh processes under 2 [4] map iteration starts); group = (program, build mode, minify, source map); builds within a group vary the compiler-side map iteration start (runtime/map.go overlay, VERIF_MAPITER in the list below, hash seed fixed), the session history (fresh session, the same package built twice in one session, after building each other program in the same session), and - for the four-file package - the order in which the files are listed (permutations of the four files, helper files before or after), all in separate worker processes; the sha256 of the JavaScript and of the source map must be identical within a group",
+		"rule":                "programs: the four-file program (closures, generic instances, anonymous types, linknames, a two-file dependency), the generics and reachability programs, an order program (closures in every clause of a type switch in a loop, escaping variables at several depths, a dozen anonymous types, 13+5 generic instances, a flattened function with labels and select, cross-package initialisers, five standard imports), a package whose four files carry the same //line directive (all 24 listing orders), a 16-package program (generic code instantiated from four packages that do not import each other; values of types from nine packages the importer never imports), and the corpus of the other families (each program built in fresh processes under 2 [4] map iteration starts); group = (program, build mode, minify, source map); builds within a group vary the compiler-side map iteration start (runtime/map.go overlay, VERIF_MAPITER in the list below, hash seed fixed), the session history (fresh session, the same package built twice in one session, after building each other program in the same session), and - for the four-file package - the order in which the files are listed (permutations of the four files, helper files before or after), all in separate worker processes; the sha256 of the JavaScript and of the source map must be identical within a group",
 		"samples":             samples,
 		"groups":              groups,
 		"map_iteration_starts": ks,
